@@ -254,7 +254,7 @@ pub fn run(ctx: &mut Ctx) {
         !ctx.should_stop()
     });
     // documents, truncations, corruptions
-    let p = DocParams { max_nodes: ctx.tier.pick(3, 4), globals: vec![ID_TAG, ID_VOID], exclude: vec![], unknown_subsets: true, devs: ctx.tier.pick(0, 1), payload_classes: false, big_payloads: false, noncanonical: false, width_devs: true, extras: true };
+    let p = DocParams { max_nodes: ctx.tier.pick(3, 4), globals: vec![ID_TAG, ID_VOID], exclude: vec![], unknown_subsets: true, devs: ctx.tier.pick(0, 1), payload_classes: false, big_payloads: false, noncanonical: false, width_devs: true, extras: true, all_widths: false };
     let mut mstrict = Cfg::strict();
     mstrict.max_size = MaxSize::Limit(1 << 16);
     let all_masters: Vec<u64> = rs.masters();
